@@ -49,6 +49,19 @@ Section FDndProofs.
     - rewrite Nat.add_comm, Nat.mod_add by lia. apply Nat.mod_small. exact Hb.
   Qed.
 
+  (* Kronecker PRODUCT of two (rectangular) matrices acts per axis: A (ma x na) on the first index, B (nbr x nbc) on the second *)
+  Theorem kron_rect_apply nbr nbc na (A B : nat -> nat -> K) (u : nat -> nat -> K) i j :
+    j < nbr -> 0 < nbc ->
+    sumn (fun c => kron_rect kmul nbr nbc A B (i * nbr + j) c *! u (c / nbc) (c mod nbc)) (na * nbc)
+    = sumn (fun a => A i a *! sumn (fun b => B j b *! u a b) nbc) na.
+  Proof.
+    intros Hj Hc. rewrite sumn_flatten.
+    destruct (divmod_flat i j nbr Hj) as [Er1 Er2].
+    apply sumn_ext. intros a Ha. rewrite <- sumn_scal. apply sumn_ext. intros b Hb.
+    destruct (divmod_flat a b nbc Hb) as [Ec1 Ec2].
+    unfold kron_rect. rewrite Er1, Er2, Ec1, Ec2. ring.
+  Qed.
+
   (* 2-D: row (i, j), grid function u(a, b) stored row-major *)
   Theorem fd2_apply n (A : nat -> nat -> K) (u : nat -> nat -> K) i j :
     i < n -> j < n ->
